@@ -321,6 +321,7 @@ func TestCheck(t *testing.T) {
 	ns.Samples = append(ns.Samples, "ParseFields(nil, \"p\")", "NewStore(Structs: [{Value: &int}])")
 	failingLookups(rep)
 	repopulate(rep)
+	taggedEmbedded(rep)
 	if err := rep.Write(env); err != nil {
 		t.Fatal(err)
 	}
@@ -786,6 +787,138 @@ func repopulate(rep *report.Report) {
 					st2.Close()
 				} else {
 					st1.Close()
+				}
+			}
+		}
+	}
+	sec.States, sec.Transitions = sec.Evaluations, sec.Evaluations
+}
+
+// Embedded (anonymous) fields that carry the setec tag themselves.
+type embJSON struct {
+	JS `setec:"cfg,json"`
+	A  string `setec:"a"`
+}
+type embBin struct {
+	Bin `setec:"b"`
+}
+type embSecret struct {
+	setec.Secret `setec:"s"`
+	N            int
+}
+type embPlain struct {
+	Plain `setec:"p"`
+}
+type embBoth struct {
+	Emb // promoted tagged field "emb"
+	JS  `setec:"cfg,json"`
+}
+
+// taggedEmbedded: "embedded structs" of the quantifier - the embedded field itself may be the tagged one.
+func taggedEmbedded(rep *report.Report) {
+	sec := rep.Add(&report.Section{Name: "tagged-embedded-fields", Engine: "enum", Exhaustive: true, Extra: map[string]int64{},
+		Rule: "structs whose embedded (anonymous) field itself carries the tag - a ,json struct, a BinaryUnmarshaler, a Secret, an unsupported struct, and one next to an embedded struct with a promoted tagged field - × prefixes \"\", p × ParseFields+Apply and NewStore(Structs): names requested, fields populated, unsupported type rejected up front; non-trivial = all"})
+	type tc struct {
+		name   string
+		mk     func() any
+		names  []string // tag names
+		check  func(v any) string
+		reject bool
+	}
+	cases := []tc{
+		{"embedded ,json struct + string", func() any { return &embJSON{} }, []string{"cfg", "a"}, func(v any) string {
+			x := v.(*embJSON)
+			if x.JS.X != "jx" || x.JS.N != 7 || x.A != "va" {
+				return fmt.Sprintf("JS=%+v A=%q", x.JS, x.A)
+			}
+			return ""
+		}, false},
+		{"embedded BinaryUnmarshaler", func() any { return &embBin{} }, []string{"b"}, func(v any) string {
+			if x := v.(*embBin); string(x.Bin.Got) != "vb" {
+				return fmt.Sprintf("Bin.Got=%q", x.Bin.Got)
+			}
+			return ""
+		}, false},
+		{"embedded Secret", func() any { return &embSecret{N: 5} }, []string{"s"}, func(v any) string {
+			x := v.(*embSecret)
+			if x.Secret == nil || string(x.Secret.Get()) != "vs" || x.N != 5 {
+				return fmt.Sprintf("Secret nil=%v N=%d", x.Secret == nil, x.N)
+			}
+			return ""
+		}, false},
+		{"embedded unsupported struct", func() any { return &embPlain{} }, []string{"p"}, nil, true},
+		{"promoted field next to a tagged embedded struct", func() any { return &embBoth{} }, []string{"emb", "cfg"}, func(v any) string {
+			x := v.(*embBoth)
+			if x.Emb.E != "vemb" || x.JS.X != "jx" {
+				return fmt.Sprintf("Emb.E=%q JS=%+v", x.Emb.E, x.JS)
+			}
+			return ""
+		}, false},
+	}
+	vals := map[string]string{"cfg": `{"x":"jx","n":7}`, "a": "va", "b": "vb", "s": "vs", "p": "vp", "emb": "vemb"}
+	for _, c := range cases {
+		for _, prefix := range []string{"", "p"} {
+			for _, via := range []string{"apply", "newstore"} {
+				sec.Evaluations++
+				sec.Nontrivial++
+				desc := fmt.Sprintf("%s, prefix %q, via %s", c.name, prefix, via)
+				sv := &svc{vals: map[string][]byte{}}
+				var want []string
+				for n, v := range vals {
+					sv.vals[path.Join(prefix, n)] = []byte(v)
+				}
+				for _, n := range c.names {
+					want = append(want, path.Join(prefix, n))
+				}
+				sort.Strings(want)
+				v := c.mk()
+				var err error
+				func() {
+					defer func() {
+						if r := recover(); r != nil {
+							err = fmt.Errorf("panic: %v", r)
+							rep.Violate(sec.Name, "fields/panic: "+desc, fmt.Sprintf("%s: panic: %v", desc, r), nil)
+						}
+					}()
+					if via == "apply" {
+						var fs *setec.Fields
+						fs, err = setec.ParseFields(v, prefix)
+						if err != nil {
+							return
+						}
+						got := append([]string{}, fs.Secrets()...)
+						sort.Strings(got)
+						if strings.Join(got, ",") != strings.Join(want, ",") {
+							rep.Violate(sec.Name, "fields/embedded-names: "+desc, fmt.Sprintf("%s: Secrets() = %v, want %v", desc, got, want), nil)
+						}
+						var st *setec.Store
+						st, err = setec.NewStore(context.Background(), setec.StoreConfig{Client: sv, AllowLookup: true, PollInterval: -1, Logf: func(string, ...any) {}})
+						if err != nil {
+							return
+						}
+						defer st.Close()
+						err = fs.Apply(context.Background(), st)
+					} else {
+						var st *setec.Store
+						st, err = setec.NewStore(context.Background(), setec.StoreConfig{Client: sv, Structs: []setec.Struct{{Value: v, Prefix: prefix}}, PollInterval: -1, Logf: func(string, ...any) {}})
+						if st != nil {
+							defer st.Close()
+						}
+					}
+				}()
+				switch {
+				case c.reject:
+					if err == nil {
+						rep.Violate(sec.Name, "fields/embedded-unsupported-accepted: "+desc, desc+": a tagged embedded field of an unsupported type was accepted", nil)
+					} else if len(sv.reqs) != 0 {
+						rep.Violate(sec.Name, "fields/rejected-late: "+desc, fmt.Sprintf("%s: rejected only after requests %v", desc, sv.reqs), nil)
+					}
+				case err != nil:
+					rep.Violate(sec.Name, "fields/embedded-error: "+desc, desc+": "+err.Error(), nil)
+				default:
+					if msg := c.check(v); msg != "" {
+						rep.Violate(sec.Name, "fields/embedded-not-filled: "+desc, fmt.Sprintf("%s: the tagged embedded field was not populated: %s (requests %v)", desc, msg, sv.reqs), nil)
+					}
 				}
 			}
 		}
